@@ -10,12 +10,12 @@ from rv.props import common as C
 from rv import oracles as O
 
 LEVEL = "exploration"
-RULE = ("all 19 algorithms x tie-heavy and generic inputs of the C01/C03/C05 classes; every case is executed under 9 presentations (list, int64 array, unsigned-integer array, dict whose integer names are other items' values, dict(enumerate(values)), dict with "
+RULE = ("all 19 algorithms x tie-heavy and generic inputs of the C01/C03/C05 classes; every case is executed under 10 presentations (a dict subclass - OrderedDict / defaultdict / Counter -, list, int64 array, unsigned-integer array, dict whose integer names are other items' values, dict(enumerate(values)), dict with "
         "shuffled string names, names+valueof with integer names disjoint from the values, dict with integer names overlapping the value range, names+valueof strings); "
         "30% of each shard: the 11 cheap heuristics on small value ranges (values <= 5..20, <= 12 items) under list / shuffled-string dict / dict(enumerate) / integer names; every 40th case: 9-11 items over two distinct values into 5 bins for ckk under list, array and dict; non-trivial = >= 3 items, >= 2 bins; distinct on (algorithm, config, size, sorted values)")
 ASSUMPTIONS = ["integer values (ndarray presentation needs them)", "bin-completion with names is the open finding KF-bc-names"]
 FLOORS = {"quick": {"distinct_nontrivial": 800}, "thorough": {"distinct_nontrivial": 4000}}
-PRES = ("list", "array", "dict_str", "names_int", "dict_int_overlap", "names_str", "dict_enum", "array_u", "dict_val_shift")
+PRES = ("list", "array", "dict_str", "names_int", "dict_int_overlap", "names_str", "dict_enum", "array_u", "dict_val_shift", "dict_sub")
 
 
 def plan(tier, seed):
